@@ -91,16 +91,16 @@ def run(tier, runner):
     r_bc.require(8, 'vector instantiations')
     r_rp = retpos.ret_pos(progs + real)
     r_rp.require(9, 'position-returning members (insert x4, emplace x2, erase x2, insert_range x2, adjustCapacity)')
-    r_alias.require(14, 'operations taking a reference to an element value')
+    r_alias.require(9, 'operations taking a reference to an element value')
     ws = sig_witnesses()
     r_sig = witness.run_witnesses(runner, ws, [(17, True, False)] if tier == 'quick' else [(11, True, False), (14, True, False), (17, True, False)],
                                   ['clang++'] if tier == 'quick' else ['clang++', 'g++'], {'SIG': "result types of every operation equal std::vector's modulo the iterator and size types"})
-    r_w.require(18, 'stores to the size words of SmallVectorBase')
+    r_w.require(12, 'stores to the size words of SmallVectorBase')
     r_r.require(3, 'value reads of _size')
     r_span.require(6, 'inline vector layouts')
     r_it.require(6, 'range members instantiated with an input iterator')
     r_ov.require(4, 'in-place range moves')
-    r_cd.require(20, 'constructs into container storage')
+    r_cd.require(15, 'constructs into container storage')
     r_tail.require(12, 'size commits')
     return {
         'results': [r_w, r_r, r_es, r_span, r_it, r_ov, r_cd, r_tail, r_alias, r_bc, r_rp] + r_sig,
